@@ -137,6 +137,14 @@ def snapshot_provider(server, clients):
     out["token_handler"] = canon({k: {"cls": type(h).__name__, "lifetime": getattr(h, "lifetime", None),
                                       "kwargs": {a: b for a, b in getattr(h, "kwargs", {}).items() if a != "upstream_get"}}
                                   for k, h in ctx.session_manager.token_handler.handler.items() if h is not None})
+    # the authentication broker is handler configuration too: which methods exist and the acr -> method index
+    _br = getattr(ctx, "authn_broker", None)
+    if _br is not None:
+        out["authn_broker"] = canon({"acr2id": {str(k): list(v) for k, v in dict(_br.acr2id).items()},
+                                     "methods": {str(k): [str(v.get("acr")), type(v.get("method")).__name__] for k, v in _br.db.items()},
+                                     "attrs": sorted(k for k in vars(_br) if k not in ("db", "acr2id"))})
+    # whatever else hangs on the context (attributes not covered above; the mutable stores are excluded inside canon)
+    out["context_rest"] = canon(ctx)
     out["registered_client_ids"] = sorted(str(k) for k in ctx.cdb.keys())
     for cid in clients:
         rec = ctx.cdb.get(cid)
@@ -213,12 +221,24 @@ def client_overrides():
     }
 
 
+# two configured authentication methods: the broker's acr index is consulted when a request names acr values
+AUTHN_METHODS = {
+    "anon": {"acr": "urn:oasis:names:tc:SAML:2.0:ac:classes:InternetProtocolPassword",
+             "class": "idpyoidc.server.user_authn.user.NoAuthn", "kwargs": {"user": "diana"}},
+    "anon2": {"acr": "urn:verif:acr:second", "class": "idpyoidc.server.user_authn.user.NoAuthn", "kwargs": {"user": "diana"}},
+}
+ACR_CHOICES = [["urn:verif:acr:second"], ["urn:oasis:names:tc:SAML:2.0:ac:classes:InternetProtocolPassword"],
+               ["urn:unknown:acr:1"], ["urn:unknown:acr:1", "urn:unknown:acr:2", "urn:verif:acr:second"],
+               ["urn:verif:acr:second", "urn:unknown:acr:3"], ["", "urn:unknown:acr:4"]]
+
+
 def make_oidc():
     import srv, srv_c13
     from idpyoidc.server.oauth2.authorization import validate_resource_indicators_policy as arp
     eps = {"authorization": {"resource_indicators": {"policy": {"function": arp, "kwargs": {}}}},
            "userinfo": {"client_authn_method": ["bearer_header", "bearer_body"], "add_claims_by_scope": True}}
     return srv.make_server(clients=CLIENTS, client_over=client_overrides(), authz=copy.deepcopy(srv_c13.AUTHZ), endpoints=eps,
+                           extra={"authentication": AUTHN_METHODS},
                            add_ons={"dpop": {"function": "idpyoidc.server.oauth2.add_on.dpop.add_support",
                                              "kwargs": {"dpop_signing_alg_values_supported": ["ES256"]}}})
 
@@ -385,6 +405,14 @@ def make_exec(server, clock, oidc):
             d = r[0].to_dict() if hasattr(r[0], "to_dict") else dict(r[0])
             return ["ok", {k: v for k, v in sorted(d.items()) if k not in srv_c13.VOLATILE}]
 
+        def op_authz_acr(self, user, cref, scope, acrs):
+            """an authorization request that names the authentication context classes it wants (known, unknown, mixed)"""
+            cid, _ = self.client(cref)
+            self.nonce += 1
+            req = {"client_id": cid, "redirect_uri": self.redirect(cid), "response_type": "code", "scope": " ".join(scope),
+                   "state": "acr%d" % self.nonce, "nonce": "acr-nonce-%d" % self.nonce, "acr_values": " ".join(acrs)}
+            return self._authz(req, user, cref)
+
         def op_logout(self, ref, alla):
             """the verified logout of the end-session endpoint (one client / all clients of the user): back-channel
             logout tokens are built and posted (the HTTP client is a recording stub), front-channel iframes built"""
@@ -492,6 +520,8 @@ def next_op(rng, P, oidc):
         return ("introspect", ref, c if not (c == "client_2" and oidc) else "client_1")
     if r < 0.84 and oidc:
         return (rng.choice(["userinfo", "userinfo", "userinfo_body"]), pick("access_token"))
+    if r < 0.85 and oidc:
+        return ("authz_acr", rng.choice(USERS), rng.choice(clients), rng.choice(SCOPES), rng.choice(ACR_CHOICES))
     if r < 0.865 and oidc:
         return ("logout", pick(rng.choice(["access_token", "access_token", "refresh_token"])), rng.random() < 0.5)
     if r < 0.88:
@@ -522,6 +552,8 @@ def probe_flow(c, oidc):
         else:
             f += [("revoke", ("rel", 1), "client_1", None), ("userinfo", ("rel", 1))]
         f += [("logout", ("rel", 1), False), ("userinfo", ("rel", 1))]
+        f += [("authz_acr", "diana", c, ["openid"], ["urn:unknown:acr:9", "urn:verif:acr:second"]),
+              ("authz_acr", "diana", c, ["openid"], ["urn:unknown:acr:8"])]
     else:
         f += [("token_res", ("rel", 0), c, ["client_2"] if c == "client_1" else ["client_1"]),
               ("introspect", ("rel", 1), c), ("exchange", ("rel", 1), c, None), ("refresh", ("rel", 2), c, None, None),
@@ -773,11 +805,86 @@ def rp_userinfo_body(R, i):
         return ["exc", type(e).__name__]
 
 
+def generated_flows_evidence(ctx):
+    """(4) GENERATED FLOWS: harness/py2alias.py re-translates the listed request-handling functions from the source
+    this run uses; the text must be the Gen/AliasGen.v that Props/C20.v was compiled against, nothing may be refused,
+    and the flows the checker rejects / the broken return contracts are named with their source lines."""
+    import py2alias
+    text, summ = py2alias.generate()
+    gen_path = os.path.join(E.COQ, "Gen", "AliasGen.v")
+    try:
+        on_disk = open(gen_path).read()
+    except OSError:
+        on_disk = None
+    if on_disk != text:
+        # not an alarm: a concurrent check of another source tree (VERIF_REPO) may have regenerated coq/Gen in between;
+        # Props/C20.v was compiled against the file its own regeneration step wrote (same lock), and everything below
+        # is evaluated on THIS translation, not on the shared file
+        ctx.notes.append("coq/Gen/AliasGen.v on disk %s the translation made by the driver" %
+                         ("is missing;" if on_disk is None else "differs from"))
+    for r in summ["refused"]:
+        ctx.broken.append("generated flows: BROKEN-TRANSLATION: " + r)
+    ctx.count("generated:functions", summ["functions"])
+    ctx.count("generated:paths", summ["paths"])
+    ctx.count("generated:instructions", summ["instructions"])
+    ctx.count("generated:write_instructions", summ["write_instructions"])
+    line = ("generated flows (py2alias): %d of %d listed functions translated, %d paths, %d instructions (%d writes), %d refused, %.2fs"
+            % (summ["functions"], summ["targets"], summ["paths"], summ["instructions"], summ["write_instructions"],
+               len(summ["refused"]), summ["seconds"]))
+    print(line)
+    ctx.notes.append(line)
+    ctx.notes.append("generated flows per function (paths/instructions): " + ", ".join(
+        "%s %d/%d" % (f["function"], f["paths"], f["instructions"]) for f in summ["per_function"]))
+    for f in summ["per_function"]:
+        for n in f["notes"]:
+            ctx.notes.append("generated flows: %s: %s" % (f["function"], n))
+    for r in summ["refused"]:
+        print("  refused: " + r[:300])
+    ctx.notes.append("not in the target list (tried, outside the subset): " + "; ".join("%s - %s" % kv for kv in py2alias.NOT_TRANSLATED))
+    ctx.extra_trusted.append("harness/py2alias.py (Python ast -> alias IR; its callee table, provenance table and the assumptions "
+                             "DYN_FRESH_ATTRS / ASSUMED_CALLEES): regenerates coq/Gen/AliasGen.v")
+    # the driver's own translation, inline (independent of the shared coq/Gen directory)
+    rc, out, vals = ctx.coq_eval("C20_generated", ["Lib.Heap", "Model.Alias", "Model.AliasFlows", "Model.AliasTie"],
+                                 text + "\nEval vm_compute in (rejected generated_flows).\n"
+                                 "Eval vm_compute in (contract_broken generated_flows).\n"
+                                 "Eval vm_compute in (agree_vacuous generated_flows).\n"
+                                 "Eval vm_compute in (forallb g_checked generated_flows, forallb g_contract_ok generated_flows, "
+                                 "forallb (ret_ok generated_flows) ret_rows, forallb (agree_ok generated_flows) agree_rows).\n")
+    if rc != 0 or len(vals) < 4:
+        ctx.broken.append("generated flows: the translation does not evaluate: %s" % out.strip()[-400:])
+        return
+    verdict = re.findall(r"true|false", vals[3])
+    for ok, thm in zip(verdict, ("C20_generated_flows_checked", "C20_generated_return_contracts",
+                                 "C20_generated_returns_agree_with_transcribed", "C20_generated_agree_with_transcribed")):
+        if ok != "true":
+            ctx.broken.append("generated flows: %s is false for the flows translated from the current source" % thm)
+    if len(verdict) != 4:
+        ctx.broken.append("generated flows: cannot read the verdict %r" % vals[3][:200])
+    for fn, pi, some, idx in re.findall(r'\("([^"]*)",\s*(\d+),\s*(Some\s+(\d+)|None)\)', vals[0]):
+        where = ""
+        for dn, info in summ["flows"].items():
+            if info["function"] == fn and str(info["path"]) == pi and idx and int(idx) < len(info["lines"]):
+                ln = info["lines"][int(idx)]
+                try:
+                    where = " = %s:%d: %s" % (info["file"], ln, open(info["file"]).read().splitlines()[ln - 1].strip())
+                except Exception:
+                    where = " = line %d" % ln
+        ctx.broken.append("generated flow %s#%s is rejected by the ownership checker (C20_generated_flows_checked): instruction %s writes "
+                          "through a possibly shared object%s" % (fn, pi, idx or "?", where))
+    for fn, pi in re.findall(r'\("([^"]*)",\s*(\d+)\)', vals[1]):
+        ctx.broken.append("generated flow %s#%s breaks the return contract its callers rely on (C20_generated_return_contracts)" % (fn, pi))
+    if len(vals) > 2 and re.findall(r'"([^"]*)",\s*"([^"]*)"', vals[2]):
+        ctx.notes.append("agreement rows that say nothing on this run (the local is not bound on any generated path): %s"
+                         % re.findall(r'"([^"]*)",\s*"([^"]*)"', vals[2]))
+    ctx.traces += summ["paths"]
+
+
 def run(ctx):
     import srv
     import drv_C13
     rng = ctx.rng
     q = ctx.quick
+    generated_flows_evidence(ctx)
     clock = srv.Clock().install()
     reb = drv_C13.Rebinder(clock)
     try:
